@@ -245,6 +245,7 @@ Qed.
 (* ================================================================== *)
 (* 2. PbValue.WriteTo: the explicit-stack walk                           *)
 (* ================================================================== *)
+Section WalkProofs.
 Import KeyEnc KeyEncProofs.
 
 Definition iframe := (path * frame)%type.
@@ -519,3 +520,320 @@ Proof.
   change (frames_size []) with 0%nat in Hhi.
   pose proof (pb_size_pos v) as Hp. lia.
 Qed.
+
+(* non-vacuity of the stack bound: a flat list reaches the bound minus one, a chain stays at 1 *)
+Example stack_height_reached :
+  option_map wr_maxh (match pb_write_i (PList [PNull; PNull; PNull; PNull]) with Ok r => Some r | _ => None end)
+  = Some 4%nat /\
+  option_map wr_maxh (match pb_write_i (PList [PList [PList [PList [PNull]]]]) with Ok r => Some r | _ => None end)
+  = Some 1%nat.
+Proof. split; vm_compute; reflexivity. Qed.
+End WalkProofs.
+
+(* ================================================================== *)
+(* 3. depth-guarded and structural recursion                            *)
+(* ================================================================== *)
+
+Section DepthGuardProofs.
+  Context {A R : Type}.
+  Variable limit : nat.
+  Variable too_deep : R.
+  Variable body : (A -> go R) -> A -> go R.
+  (* an activation has no other source of divergence than its nested calls: if every nested call
+     returns (a value or a panic), the activation returns *)
+  Hypothesis body_returns : forall self a,
+    (forall a', self a' <> OutOfFuel) -> body self a <> OutOfFuel.
+
+  (* A recursion that checks `depth >= limit` at entry and passes depth+1 to its nested calls
+     never has more than limit - depth + 1 activations on the stack: that much fuel (fuel is
+     handed down, not threaded, so it counts nesting, not the number of calls) always suffices,
+     for every argument and every body. *)
+  Theorem depth_guarded_recursion_terminates : forall fuel depth a,
+    (limit - depth < fuel)%nat -> guarded limit too_deep body fuel depth a <> OutOfFuel.
+  Proof.
+    induction fuel as [|f IH]; intros depth a Hf; [lia|].
+    cbn [guarded]. destruct (Nat.leb limit depth) eqn:El; [discriminate|].
+    apply Nat.leb_gt in El. apply body_returns. intro a'. apply IH. lia.
+  Qed.
+
+  (* at the limit the guard answers without running the body *)
+  Theorem depth_guard_fires : forall fuel depth a, (limit <= depth)%nat ->
+    guarded limit too_deep body (S fuel) depth a = Ok too_deep.
+  Proof.
+    intros fuel depth a H. cbn [guarded]. apply Nat.leb_le in H. rewrite H. reflexivity.
+  Qed.
+End DepthGuardProofs.
+
+Section DepthGuardExt.
+  Context {A R : Type}.
+  Variable limit : nat.
+  Variable too_deep : R.
+  Variable body : (A -> go R) -> A -> go R.
+  (* with enough fuel the answer does not depend on the fuel: the model's budget is not observable *)
+  Hypothesis body_ext : forall s1 s2 a, (forall a', s1 a' = s2 a') -> body s1 a = body s2 a.
+
+  Theorem depth_guarded_fuel_irrelevant : forall f1 f2 depth a,
+    (limit - depth < f1)%nat -> (limit - depth < f2)%nat ->
+    guarded limit too_deep body f1 depth a = guarded limit too_deep body f2 depth a.
+  Proof.
+    induction f1 as [|f1 IH]; intros f2 depth a H1 H2; [lia|].
+    destruct f2 as [|f2]; [lia|].
+    cbn [guarded]. destruct (Nat.leb limit depth) eqn:El; [reflexivity|].
+    apply Nat.leb_gt in El. apply body_ext. intro a'. apply IH; lia.
+  Qed.
+
+End DepthGuardExt.
+
+(* non-vacuity: a body that always recurses twice (an infinite binary call tree without the guard)
+   returns with fuel limit+1 *)
+Example depth_guard_example :
+  guarded 25 0%nat (fun self (a : nat) => bind (self (S a)) (fun x => bind (self (a + 2)%nat) (fun y => Ok (x + y)%nat)))
+          26 22 0%nat = Ok 0%nat.
+Proof. vm_compute. reflexivity. Qed.
+
+(* structural recursion over a nested message: the number of simultaneously active calls is the
+   nesting depth, and the nesting depth is bounded by half the wire size *)
+Lemma fold_max_le (cs : list rose) c : In c cs ->
+  (rdepth c <= fold_right (fun c d => Nat.max (rdepth c) d) 0 cs)%nat.
+Proof.
+  induction cs as [|x cs IH]; intro Hin; [destruct Hin|].
+  cbn [fold_right]. destruct Hin as [->|Hin]; [lia|]. specialize (IH Hin). lia.
+Qed.
+
+Theorem struct_walk_depth : forall fuel t, (rdepth t <= fuel)%nat ->
+  struct_walk fuel t = Ok (rdepth t).
+Proof.
+  induction fuel as [|f IH]; intros [cs] Hd; [cbn [rdepth] in Hd; lia|].
+  cbn [struct_walk rdepth].
+  assert (Hall : forall c, In c cs -> (rdepth c <= f)%nat).
+  { intros c Hin. pose proof (fold_max_le cs c Hin) as Hle. cbn [rdepth] in Hd. lia. }
+  assert (Hfold : fold_right (fun c acc => bind (struct_walk f c) (fun d => bind acc (fun e => Ok (Nat.max d e))))
+                             (Ok 0%nat) cs
+                  = Ok (fold_right (fun c d => Nat.max (rdepth c) d) 0%nat cs)).
+  { clear Hd. induction cs as [|c cs IHcs]; [reflexivity|].
+    cbn [fold_right]. rewrite IHcs by (intros c' Hc'; apply Hall; right; exact Hc').
+    rewrite IH by (apply Hall; left; reflexivity). reflexivity. }
+  rewrite Hfold. reflexivity.
+Qed.
+
+Theorem nesting_le_half_wire_size t : (2 * (rdepth t - 1) <= wire_min t)%nat.
+Proof.
+  induction t as [cs IH] using rose_ind'.
+  cbn [rdepth wire_min]. rewrite Nat.sub_succ, Nat.sub_0_r.
+  induction IH as [|c cs Hc Hcs IHcs]; [cbn; lia|].
+  cbn [fold_right]. destruct c as [cs']. cbn [rdepth] in *. rewrite Nat.sub_succ, Nat.sub_0_r in Hc.
+  lia.
+Qed.
+
+(* the two together: a structural recursion over a message of at most [n] wire bytes returns
+   with fuel n/2 + 1, i.e. it never nests deeper than that *)
+Theorem no_panic_struct_walk t n : (wire_min t <= n)%nat ->
+  struct_walk (S (n / 2)) t = Ok (rdepth t) /\ (rdepth t <= S (n / 2))%nat.
+Proof.
+  intro Hn. pose proof (nesting_le_half_wire_size t) as Hw.
+  assert (Hd : (rdepth t <= S (n / 2))%nat).
+  { assert (rdepth t - 1 <= n / 2)%nat by (apply Nat.div_le_lower_bound; lia). lia. }
+  split; [apply struct_walk_depth; exact Hd | exact Hd].
+Qed.
+
+Example nesting_example :
+  let t := Rose [Rose [Rose []; Rose [Rose []]]] in
+  rdepth t = 4%nat /\ wire_min t = 8%nat /\ struct_walk 4 t = Ok 4%nat /\ struct_walk 3 t = OutOfFuel.
+Proof. vm_compute. repeat split; reflexivity. Qed.
+
+(* ================================================================== *)
+(* 4. pkg/tuple string splitting with its index arithmetic              *)
+(* ================================================================== *)
+Section TupleProofs.
+Import TupleStr.
+
+Lemma index_byte_range c s : (-1 <= index_byte c s < zlen s)%Z \/ (s = [] /\ index_byte c s = (-1)%Z).
+Proof.
+  induction s as [|x s IH]; [right; split; reflexivity|]. left.
+  cbn [index_byte]. unfold zlen in *. cbn [length].
+  destruct (x =? c); [lia|].
+  destruct (index_byte c s <? 0)%Z eqn:E; destruct IH as [IH|[-> IH]]; cbn [length] in *; lia.
+Qed.
+
+Lemma index_byte_cut c s :
+  match cut c s with
+  | Some (a, b) => index_byte c s = zlen a
+  | None => index_byte c s = (-1)%Z
+  end.
+Proof.
+  induction s as [|x s IH]; [reflexivity|].
+  cbn [cut index_byte]. destruct (x =? c) eqn:E; [reflexivity|].
+  destruct (cut c s) as [[a b]|].
+  - rewrite IH. unfold zlen. cbn [length]. replace (Z.of_nat (length a) <? 0)%Z with false by lia. lia.
+  - rewrite IH. reflexivity.
+Qed.
+
+Lemma last_index_byte_cut c s :
+  match cut_last c s with
+  | Some (a, b) => last_index_byte c s = zlen a
+  | None => last_index_byte c s = (-1)%Z
+  end.
+Proof.
+  induction s as [|x s IH]; [reflexivity|].
+  cbn [cut_last last_index_byte]. destruct (cut_last c s) as [[a b]|].
+  - rewrite IH. unfold zlen. cbn [length]. replace (0 <=? Z.of_nat (length a))%Z with true by lia. lia.
+  - rewrite IH. cbn. destruct (x =? c); reflexivity.
+Qed.
+
+Lemma firstn_app_exact {X} (a b : list X) : firstn (length a) (a ++ b) = a.
+Proof. rewrite firstn_app, Nat.sub_diag, firstn_all. cbn. apply app_nil_r. Qed.
+
+Lemma skipn_app_exact {X} (a b : list X) : skipn (length a) (a ++ b) = b.
+Proof. rewrite skipn_app, Nat.sub_diag, skipn_all. reflexivity. Qed.
+
+(* SplitObject never panics, on any byte string, and is the function C29 reasons about *)
+Theorem no_panic_split_object s : split_object_go s = Ok (split_object s).
+Proof.
+  unfold split_object_go, split_object.
+  pose proof (index_byte_cut c_colon s) as Hi.
+  destruct (cut c_colon s) as [[a b]|] eqn:Ec.
+  - apply cut_some in Ec as [-> _]. rewrite Hi.
+    replace (zlen a =? -1)%Z with false by (unfold zlen; lia).
+    rewrite slice_from_to_ok by (unfold zlen; rewrite ?app_length; cbn [length]; lia).
+    cbn [bind]. rewrite slice_from_ok by (unfold zlen; rewrite ?app_length; cbn [length]; lia).
+    cbn [bind]. unfold zlen. rewrite Z.sub_0_r, Nat2Z.id. cbn [skipn Z.to_nat].
+    rewrite firstn_app_exact.
+    replace (Z.to_nat (Z.of_nat (length a) + 1)) with (length (a ++ [c_colon])) by (rewrite app_length; cbn; lia).
+    replace (a ++ c_colon :: b) with ((a ++ [c_colon]) ++ b) by (rewrite <- app_assoc; reflexivity).
+    rewrite skipn_app_exact. reflexivity.
+  - rewrite Hi. reflexivity.
+Qed.
+
+(* SplitObjectRelation never panics *)
+Theorem no_panic_split_object_relation s : split_object_relation_go s = Ok (split_object_relation s).
+Proof.
+  unfold split_object_relation_go, split_object_relation.
+  pose proof (last_index_byte_cut c_hash s) as Hi.
+  destruct (cut_last c_hash s) as [[a b]|] eqn:Ec.
+  - apply cut_last_some in Ec as [-> _]. rewrite Hi.
+    replace (zlen a =? -1)%Z with false by (unfold zlen; lia).
+    assert (Hf : slice_from_to (a ++ c_hash :: b) 0 (zlen a) = Ok a).
+    { rewrite slice_from_to_ok by (unfold zlen; rewrite ?app_length; cbn [length]; lia).
+      unfold zlen. rewrite Z.sub_0_r, Nat2Z.id. cbn [skipn Z.to_nat]. rewrite firstn_app_exact. reflexivity. }
+    rewrite Hf. cbn [bind].
+    destruct (zlen a =? zlen (a ++ c_hash :: b) - 1)%Z eqn:El.
+    + (* trailing '#': empty relation *)
+      assert (b = []) as ->.
+      { unfold zlen in El. rewrite app_length in El. cbn [length] in El.
+        destruct b; [reflexivity|]. cbn [length] in El. lia. }
+      reflexivity.
+    + rewrite slice_from_ok by (unfold zlen; rewrite ?app_length; cbn [length]; lia).
+      cbn [bind]. unfold zlen.
+      replace (Z.to_nat (Z.of_nat (length a) + 1)) with (length (a ++ [c_hash])) by (rewrite app_length; cbn; lia).
+      replace (a ++ c_hash :: b) with ((a ++ [c_hash]) ++ b) by (rewrite <- app_assoc; reflexivity).
+      rewrite skipn_app_exact. reflexivity.
+  - rewrite Hi. reflexivity.
+Qed.
+
+Theorem no_panic_to_user_parts u : to_user_parts_go u = Ok (to_user_parts u).
+Proof.
+  unfold to_user_parts_go, to_user_parts. rewrite no_panic_split_object_relation. cbn [bind].
+  destruct (split_object_relation u) as [o r]. rewrite no_panic_split_object. cbn [bind].
+  destruct (split_object o) as [t id]. reflexivity.
+Qed.
+
+(* FromUserParts: the buffer is always pre ++ zeros with w = len(pre) *)
+Lemma zlen_app {X} (a b : list X) : zlen (a ++ b) = (zlen a + zlen b)%Z.
+Proof. unfold zlen. rewrite app_length. lia. Qed.
+Lemma zlen_repeat {X} (x : X) k : zlen (repeat x k) = Z.of_nat k.
+Proof. unfold zlen. rewrite repeat_length. reflexivity. Qed.
+
+Lemma set_nth_app {X} (pre : list X) y rest x :
+  set_nth (pre ++ y :: rest) (length pre) x = pre ++ x :: rest.
+Proof. induction pre as [|p pre IH]; [reflexivity|]. cbn [app length set_nth]. rewrite IH. reflexivity. Qed.
+
+Lemma set_at_buf (pre : bytes) k x :
+  set_at (pre ++ repeat 0 (S k)) (zlen pre) x = Ok (pre ++ x :: repeat 0 k).
+Proof.
+  unfold set_at. rewrite zlen_app, zlen_repeat.
+  replace ((0 <=? zlen pre) && (zlen pre <? zlen pre + Z.of_nat (S k)))%Z with true by (unfold zlen; lia).
+  unfold zlen. rewrite Nat2Z.id. cbn [repeat]. rewrite set_nth_app. reflexivity.
+Qed.
+
+Lemma copy_at_buf (pre : bytes) k (src : bytes) : (length src <= k)%nat ->
+  copy_at (pre ++ repeat 0 k) (zlen pre) src =
+  Ok ((pre ++ src) ++ repeat 0 (k - length src), zlen (pre ++ src)).
+Proof.
+  intro Hk. unfold copy_at.
+  rewrite slice_from_ok by (rewrite zlen_app, zlen_repeat; unfold zlen; lia).
+  cbn [bind]. unfold zlen at 1 2. rewrite Nat2Z.id, skipn_app_exact, firstn_app_exact.
+  unfold copy_into. rewrite repeat_length.
+  replace (Nat.min k (length src)) with (length src) by lia.
+  rewrite firstn_all.
+  assert (Hs : skipn (length src) (repeat 0 k) = repeat 0 (k - length src)).
+  { replace k with (length src + (k - length src))%nat at 1 by lia.
+    rewrite repeat_app. rewrite <- (repeat_length 0 (length src)) at 1. apply skipn_app_exact. }
+  rewrite Hs, <- app_assoc. f_equal. f_equal. rewrite zlen_app. unfold zlen. lia.
+Qed.
+
+Lemma slice_to_buf (pre : bytes) k : slice_to (pre ++ repeat 0 k) (zlen pre) = Ok pre.
+Proof.
+  rewrite slice_to_ok by (rewrite zlen_app, zlen_repeat; unfold zlen; lia).
+  unfold zlen. rewrite Nat2Z.id, firstn_app_exact. reflexivity.
+Qed.
+
+(* FromUserParts never panics: every buf[w] write and every buf[w:] slice is inside the buffer,
+   for all three strings; the result is the function C29 reasons about *)
+Theorem no_panic_from_user_parts t id r : from_user_parts_go t id r = Ok (from_user_parts t id r).
+Proof.
+  unfold from_user_parts_go, from_user_parts.
+  set (size := (zlen t + zlen id + zlen r + 2)%Z).
+  assert (Hsz : Z.to_nat size = (length t + length id + length r + 2)%nat) by (unfold size, zlen; lia).
+  rewrite Hsz. unfold copy_into at 1. rewrite repeat_length.
+  replace (Nat.min (length t + length id + length r + 2) (length t)) with (length t) by lia.
+  rewrite firstn_all.
+  assert (Hs0 : skipn (length t) (repeat 0 (length t + length id + length r + 2))
+                = repeat 0 (length id + length r + 2)).
+  { replace (length t + length id + length r + 2)%nat with (length t + (length id + length r + 2))%nat by lia.
+    rewrite repeat_app. rewrite <- (repeat_length 0 (length t)) at 1. apply skipn_app_exact. }
+  rewrite Hs0. fold (zlen t).
+  destruct t as [|c t'].
+  - (* no type: no ':' *)
+    cbn [zlen length Z.of_nat Z.ltb andb bind app].
+    replace ((0 <? 0) && (0 <? size))%Z with false by reflexivity. cbn [bind].
+    pose proof (copy_at_buf [] (length id + length r + 2) id) as Hc. cbn [app zlen length Z.of_nat] in Hc.
+    rewrite Hc by lia. cbn [bind]. clear Hc.
+    destruct r as [|d r'].
+    + replace (0 <? zlen (@nil N))%Z with false by reflexivity. cbn [bind]. rewrite slice_to_buf. rewrite !app_nil_r. reflexivity.
+    + replace (0 <? zlen (d :: r'))%Z with true by (unfold zlen; cbn [length]; lia).
+      replace (length id + length (d :: r') + 2 - length id)%nat with (S (length (d :: r') + 1)) by lia.
+      rewrite set_at_buf. cbn [bind].
+      replace (id ++ c_hash :: repeat 0 (length (d :: r') + 1)) with ((id ++ [c_hash]) ++ repeat 0 (length (d :: r') + 1))
+        by (rewrite <- app_assoc; reflexivity).
+      replace (zlen id + 1)%Z with (zlen (id ++ [c_hash])) by (rewrite zlen_app; reflexivity).
+      rewrite copy_at_buf by lia. cbn [bind]. rewrite slice_to_buf.
+      rewrite <- !app_assoc. reflexivity.
+  - replace ((0 <? zlen (c :: t')) && (zlen (c :: t') <? size))%Z with true by (unfold size, zlen; cbn [length]; lia).
+    replace (length id + length r + 2)%nat with (S (length id + length r + 1)) by lia.
+    rewrite set_at_buf. cbn [bind].
+    set (pre := (c :: t') ++ [c_colon]).
+    replace ((c :: t') ++ c_colon :: repeat 0 (length id + length r + 1)) with (pre ++ repeat 0 (length id + length r + 1))
+      by (unfold pre; rewrite <- app_assoc; reflexivity).
+    replace (zlen (c :: t') + 1)%Z with (zlen pre) by (unfold pre; rewrite zlen_app; reflexivity).
+    rewrite copy_at_buf by lia. cbn [bind].
+    destruct r as [|d r'].
+    + replace (0 <? zlen (@nil N))%Z with false by reflexivity. cbn [bind]. rewrite slice_to_buf. unfold pre. rewrite !app_nil_r. reflexivity.
+    + replace (0 <? zlen (d :: r'))%Z with true by (unfold zlen; cbn [length]; lia).
+      replace (length id + length (d :: r') + 1 - length id)%nat with (S (length (d :: r'))) by lia.
+      rewrite set_at_buf. cbn [bind].
+      replace ((pre ++ id) ++ c_hash :: repeat 0 (length (d :: r')))
+        with (((pre ++ id) ++ [c_hash]) ++ repeat 0 (length (d :: r'))) by (rewrite <- !app_assoc; reflexivity).
+      replace (zlen (pre ++ id) + 1)%Z with (zlen ((pre ++ id) ++ [c_hash])) by (rewrite (zlen_app (pre ++ id)); reflexivity).
+      rewrite copy_at_buf by lia. cbn [bind]. rewrite slice_to_buf.
+      unfold pre. rewrite <- !app_assoc. reflexivity.
+Qed.
+
+(* the rune decoder (for _, c := range s) never reads past the end of the string: the width it
+   reports, minus the lead byte, fits in what is left (C29, Codec/TupleStrProofs.v) *)
+Theorem no_oob_rune_decode b0 rest :
+  (1 <= snd (Utf8.decode1 b0 rest) <= S (length rest))%nat.
+Proof.
+  pose proof (TupleStrProofs.decode1_width_le b0 rest) as H1.
+  pose proof (Utf8.decode1_width_pos b0 rest) as H2. lia.
+Qed.
+End TupleProofs.
